@@ -51,6 +51,12 @@ CHECKS = {
     design="5/C17",
     note="Trusted: Lean kernel; Lark's lexer/parser and the character level (white space, NUMBER) are outside the model and compared by sampling; exactness for Einsum expressions is sampled (near-miss stream), not proved.",
     technique="Lean 4 round-trip/exactness proofs for token-level recursive-descent readers + differential against Lark and the IR extractors on rendered random syntax and near misses"),
+ "C18": dict(
+    category="proof",
+    text="Lean theorems (Props/C18): for every instance of a rule as the property words it - a declaration listing a rank twice at any position; a term ranging over a rank another term lacks (any term, either direction); an n-way split anywhere after an occupancy split anywhere earlier in a stack; flatten() combined with other directives, on fewer than two ranks, on an index-math rank, on a rank also partitioned on its own, on an already flattened rank; a non-flatten directive on a rank tuple; a shape split keyed on a non-original rank - the guard written from the code (Tensor.__init__, Equation.__build_einsum_ranks, Partitioning.__nway_after_dyn/__check_flatten/__build_part_graph) fires; legal declarations pass. Tie (G8): every rule is injected into legal specifications at every position; the real pipeline must raise ValueError before returning text, the Lean guard models must fire on the same structured input and stay silent on the legal base, which must compile. Rules without a guard model (undeclared tensor, loop order projecting into the output / iterating an output-only flattened rank, Einsum without config) are decided by the injection differential alone.",
+    design="5/C18",
+    note="Trusted: Lean kernel; guard model = guard code compared per injected case; the injected specifications are the harness's reading of the rules; base specifications are sampled.",
+    technique="Lean 4 proofs that rule instances imply the code-level guards + exhaustive-position rule injection against the real pipeline"),
 }
 
 NOT_YET = {}
